@@ -124,6 +124,10 @@ def _library(case):
     s2 = M.String("n", 5, 11, "@string{n}")
     blocks = [e1, e4, e5, M.Preamble(g(0), 12, "p"), s1, M.ExplicitComment(g(1), 13, "c"), e2, M.ImplicitComment(g(2), 14, g(2)), e3, s2,
               M.ParsingFailedBlock(error=BlockAbortedException(abort_reason="Unexpectedly reached end of file."), start_line=15, raw=g(3))]
+    if case.get("noline"):
+        # blocks built in code: no start line, no raw text
+        blocks = [M.Entry(b.entry_type, b.key, b.fields) if isinstance(b, M.Entry) else M.String(b.key, b.value) if isinstance(b, M.String)
+                  else b for b in blocks]
     return Library(blocks)
 
 
@@ -142,6 +146,11 @@ def corpus():
         {"texts": ["{" * 400 + "x" + "}" * 400, "fine"], "opt": 4, "inplace": True, "then": None},   # converter hits the recursion limit
         {"texts": ["{" * 400 + "x" + "}" * 400, "fine"], "opt": 5, "inplace": False, "then": None},
         {"texts": ["M\u00fcller & S\u00f6hne {GmbH} 50% ~x\\y"], "opt": 2, "inplace": True, "then": 4},
+    ] + [
+        # entries and @strings built in code (no start line, no raw text): errors are contained all the same
+        {"texts": t, "opt": o, "inplace": ip, "then": None, "rot": r, "noline": True}
+        for t in (["fine", "fine", "fine", "BOOM"], ["BOOM"], ["fine", "BOOM", "fine"], ["fine", "x SILENT"], ["fine"])
+        for o in (7, 8, 0, 4) for ip in (True, False) for r in (0, 2)
     ]
 
 
@@ -184,6 +193,8 @@ def _stages(case):
 
 
 def request(case):
+    if case.get("noline"):
+        return None      # python-only: the statement is evaluated on the real code (impl raises when it fails)
     # the model is asked about the LAST stage; earlier stages are run on the real code
     lib = _library(case)
     st = _stages(case)
@@ -199,6 +210,11 @@ def request(case):
 
 
 def impl(case):
+    if case.get("noline"):
+        f = oracle(case)
+        if f:
+            raise AssertionError(f)
+        return "(ok noline)"
     lib = _library(case)
     st = _stages(case)
     for i, (kind, kw) in enumerate(st):
